@@ -192,3 +192,47 @@ func IntEnv(name string, def int) int {
 	}
 	return def
 }
+
+// Known reports whether key is listed as a known finding for this run (the
+// driver passes the keys of /verif/known_findings.txt in $VERIF_KNOWN). A
+// harness that meets a listed finding records it with KnownFinding instead of
+// failing, so that the search continues behind it.
+func Known(key string) bool {
+	for _, k := range splitComma(os.Getenv("VERIF_KNOWN")) {
+		if k == key {
+			return true
+		}
+	}
+	return false
+}
+
+func splitComma(s string) []string {
+	var out []string
+	cur := ""
+	for _, r := range s {
+		if r == ',' {
+			if cur != "" {
+				out = append(out, cur)
+			}
+			cur = ""
+			continue
+		}
+		cur += string(r)
+	}
+	if cur != "" {
+		out = append(out, cur)
+	}
+	return out
+}
+
+// KnownFinding counts one occurrence of a listed finding.
+func (s *Stats) KnownFinding(key, detail string) {
+	s.mu.Lock()
+	s.labels["known_finding:"+key]++
+	if kf, _ := s.extra["known_findings"].(map[string]string); kf == nil {
+		s.extra["known_findings"] = map[string]string{key: detail}
+	} else if _, ok := kf[key]; !ok {
+		kf[key] = detail
+	}
+	s.mu.Unlock()
+}
